@@ -209,7 +209,7 @@ theorem decode_append (f d : Nat) (b t : Bytes) (v : Item) (r : Bytes)
         · simp at h
         · rename_i hc
           rw [if_neg hc]
-          cases hi : decodePairs f (d - 1) (2 * arg % 18446744073709551616 / 2) r0 with
+          cases hi : decodePairs f (d - 1) arg r0 with
           | none => simp [hi] at h
           | some q =>
             obtain ⟨xs, r1⟩ := q
@@ -390,7 +390,7 @@ theorem decode_split (f d : Nat) (b : Bytes) (v : Item) (r : Bytes)
         split at h
         · simp at h
         · rename_i hc
-          cases hi : decodePairs f (d - 1) (2 * arg % 18446744073709551616 / 2) r0 with
+          cases hi : decodePairs f (d - 1) arg r0 with
           | none => simp [hi] at h
           | some q =>
             obtain ⟨xs, r1⟩ := q
